@@ -90,6 +90,7 @@ type procSpec struct {
 	Fork     bool   `json:"fork,omitempty"`      // the shell forks a worker child (pipeline / compound command)
 	LingerMs int    `json:"linger_ms,omitempty"` // closes its output after the last chunk and stays alive
 	DetachMs int    `json:"detach_ms,omitempty"` // leaves a process behind, outside the process group, that holds the output pipe this long
+	IgnTerm  bool   `json:"ign_term,omitempty"`  // ignores every signal but SIGKILL (trap '' TERM INT HUP)
 	Bulk     int    `json:"bulk,omitempty"`      // bytes of further output after Text (more than a pipe holds, e.g. seq 100000)
 }
 
@@ -289,7 +290,7 @@ func (p *sysPlan) baseArgs() []string {
 }
 
 func genScript(lines []string, ps procSpec) simos.Script {
-	sc := simos.Script{StartErr: ps.StartErr, Endless: ps.Endless, ExitCode: ps.Exit, FinalMs: ps.FinalMs, Fork: ps.Fork, LingerMs: ps.LingerMs, DetachMs: clampInt(ps.DetachMs, 0, 3600000)}
+	sc := simos.Script{StartErr: ps.StartErr, Endless: ps.Endless, ExitCode: ps.Exit, FinalMs: ps.FinalMs, Fork: ps.Fork, LingerMs: ps.LingerMs, DetachMs: clampInt(ps.DetachMs, 0, 3600000), IgnoreTerm: ps.IgnTerm}
 	i := 0
 	k := 0
 	for i < len(lines) {
@@ -344,7 +345,7 @@ func (r *sysRun) defaultBehave(p *simos.Proc) simos.Script {
 		ps = r.plan.Procs[r.genSeq[class]%len(r.plan.Procs)]
 	}
 	r.genSeq[class]++
-	sc := simos.Script{StartErr: ps.StartErr, Endless: ps.Endless, ExitCode: ps.Exit, FinalMs: ps.FinalMs, Fork: ps.Fork, LingerMs: ps.LingerMs, DetachMs: clampInt(ps.DetachMs, 0, 3600000)}
+	sc := simos.Script{StartErr: ps.StartErr, Endless: ps.Endless, ExitCode: ps.Exit, FinalMs: ps.FinalMs, Fork: ps.Fork, LingerMs: ps.LingerMs, DetachMs: clampInt(ps.DetachMs, 0, 3600000), IgnoreTerm: ps.IgnTerm}
 	text := ps.Text
 	d := 0
 	if len(ps.DelaysMs) > 0 {
